@@ -603,29 +603,26 @@ static void run_request(int gen, double const in[7], vf_rng *r)
             else { VF_COUNT("trap.scale-dominated>1e3-by-v^2/a"); }
         }
     }
-    if (gen == 0)
-    {
-        VF_COUNT("trap.judged");
-        switch (q.branch)
-        {
-        case TB_CRUISE: VF_COUNT("trap.branch.cruise"); break;
-        case TB_ACCEL: VF_COUNT("trap.branch.accel-only"); break;
-        case TB_DECEL: VF_COUNT("trap.branch.decel-only"); break;
-        default: VF_COUNT("trap.branch.accel-decel"); break;
-        }
+    /* per (generator, branch, direction) counts: a run in which one of them was never judged is inconclusive */
+#define BR(g, b, name)                                                       \
+    if (gen == (g) && q.branch == (b))                                       \
+    {                                                                        \
+        VF_COUNT(name);                                                      \
+        if (q.dir > 0) { VF_COUNT(name ".forward"); }                        \
+        else { VF_COUNT(name ".reversed"); }                                 \
     }
-    else
-    {
-        VF_COUNT("bell.judged");
-        switch (q.branch)
-        {
-        case BB_CRUISE: VF_COUNT("bell.branch.cruise"); break;
-        case BB_AMAX: VF_COUNT("bell.branch.nocruise-amax"); break;
-        case BB_REDUCED: VF_COUNT("bell.branch.nocruise-reduced-acceleration"); break;
-        case BB_DECEL: VF_COUNT("bell.branch.decel-only"); break;
-        default: VF_COUNT("bell.branch.accel-only"); break;
-        }
-    }
+    if (gen == 0) { VF_COUNT("trap.judged"); }
+    else { VF_COUNT("bell.judged"); }
+    BR(0, TB_CRUISE, "trap.branch.cruise")
+    BR(0, TB_ACCEL, "trap.branch.accel-only")
+    BR(0, TB_DECEL, "trap.branch.decel-only")
+    BR(0, TB_ACCDEC, "trap.branch.accel-decel")
+    BR(1, BB_CRUISE, "bell.branch.cruise")
+    BR(1, BB_AMAX, "bell.branch.nocruise-amax")
+    BR(1, BB_REDUCED, "bell.branch.nocruise-reduced-acceleration")
+    BR(1, BB_DECEL, "bell.branch.decel-only")
+    BR(1, BB_ACCEL, "bell.branch.accel-only")
+#undef BR
     ++vf.evals;
     check_profile(&q, r);
     vf_distinct(vf_hash64(vf_hash64(vf_hash64(vf_hash64(14, (uint64_t)gen), (uint64_t)q.branch), (uint64_t)(q.dir + 1)), q.limits));
